@@ -216,7 +216,7 @@ def run(tier):
   ck = Check('C16', tier)
   ck.prove('props/C16.v', gen_targets=['geoassignments'], extra=['harness/RunC16.vo'])
   rng = random.Random(ck.seed * 1000003 + 16)
-  n = 500 if tier == 'quick' else 20000
+  n = common.sz(tier, 500, 20000)
   specs = [gen_spec(rng, i, malformed=(i % 3 == 2)) for i in range(n)]
   # exhaustive part: every ordered pair/triple of row types as a table (7^1 + 7^2 + 7^3 tables)
   kinds = [k for k in ROWS if k != 'zero']
